@@ -75,7 +75,10 @@ struct Case
         a.vec("eps", eps);
         a.numvec("schedule", schedule);
         a.optionalNum("idleGap", idleGap);
+        a.optionalNum("warmup", warmup);
     }
+    uint32_t warmup{0};  // > 0: a long-lived decoder - before the script it has already reassembled and delivered that many two-segment
+                         // messages (60000 + 5 bytes) of a foreign endpoint, i.e. warmup x 60 KB of segmented traffic in total
 };
 
 struct BuiltFrame
@@ -246,6 +249,33 @@ static Verdict runCase(const Case& c, Info& info)
     // open-message tracking for classification
     std::vector<bool> open(streams.size(), false);
     bool gapDone = false;
+    if (c.warmup)
+    {
+        uint16_t wdev = 0x7A7A;
+        for (const auto& ep : c.eps)
+            if (ep.dev == wdev && ep.stream == 0x7B)
+                wdev = 0x7A7B;
+        uint16_t wseq = 65000;
+        for (uint32_t w = 0; w < c.warmup; ++w)
+            for (int part = 0; part < 2; ++part)
+            {
+                wire::MsgHdr mh;
+                mh.timestamp = w;
+                mh.idWord = 11;
+                mh.payloadType = 0x20;
+                mh.flags = static_cast<uint8_t>((part == 0 ? wire::kSegFirst : wire::kSegLast) << 2);
+                Bytes chunk = fillBytes(w * 2 + static_cast<uint32_t>(part), part == 0 ? 60000 : 5);
+                mh.length = static_cast<uint16_t>(chunk.size());
+                Bytes frame;
+                wire::CmpHdr h{1, 0, wdev, wire::kMtData, 0x7B, wseq++};
+                wire::putCmpHdr(frame, h);
+                wire::putBytes(frame, wire::buildMessage(mh, chunk));
+                auto wgot = decodeOwned(dec, frame);
+                auto wexp = ref.feed(frame);
+                VF_CHECK(wgot.size() == wexp.size(), "warm-up message " << w << " (frame " << part << "): decoder returned " << wgot.size() << " packets, expected " << wexp.size());
+            }
+        info.tag("decoder_delivered_a_megabyte_or_more_of_segmented_traffic_before");
+    }
     for (size_t i = 0; i < order.size(); ++i)
     {
         size_t e = order[i].first;
@@ -343,6 +373,9 @@ static rc::Gen<Case> genCase(int tier)
         // one case in ten: a long stretch of foreign traffic inside the first open message
         if (*range<int>(0, 9) == 0)
             c.idleGap = *rc::gen::weightedOneOf<uint32_t>({{2, range<uint32_t>(17, 300)}, {2, range<uint32_t>(1025, 1400)}, {1, range<uint32_t>(4000, 5000)}});
+        // one case in twenty: a long-lived decoder that has already delivered 1 / 2 / 4 MiB of segmented traffic
+        if (*range<int>(0, 19) == 0)
+            c.warmup = *rc::gen::weightedOneOf<uint32_t>({{3, range<uint32_t>(17, 22)}, {1, range<uint32_t>(35, 40)}, {1, range<uint32_t>(70, 75)}});
         int nEp = *range<int>(1, 4);
         // alphabet chosen so that same-device/other-stream and same-stream/other-device pairs occur
         static const std::pair<uint16_t, uint8_t> alphabet[] = {{1, 0},      {1, 5},      {2, 0},      {2, 5},      {0xFFFF, 0xFF}, {0, 0},
@@ -450,13 +483,15 @@ static void normalizeCase(Case& c)
         c.idleGap = 1000 + c.idleGap % 4001;
     if (c.schedule.size() > 64)
         c.schedule.resize(64);
+    if (c.warmup > 80)
+        c.warmup = c.warmup % 81;
     std::set<std::pair<uint16_t, uint8_t>> seen;
     std::vector<EndpointScript> keep;
     size_t frames = 0, bytes = 0;
     for (auto& ep : c.eps)
     {
-        if (ep.stream == 0x7A && (ep.dev == 0x7A7A || ep.dev == 0x7A7B))
-            ep.dev = 0x7A7C;  // reserved for the foreign traffic of the idle gap
+        if ((ep.stream == 0x7A || ep.stream == 0x7B) && (ep.dev == 0x7A7A || ep.dev == 0x7A7B))
+            ep.dev = 0x7A7C;  // reserved for the foreign traffic of the idle gap / the warm-up
         if (!seen.insert({ep.dev, ep.stream}).second)
             continue;
         if (ep.version == 0)
